@@ -51,11 +51,12 @@ Walk(n, nx, stopAtDoor, fuel) ==
     ELSE IF n = "door" THEN (IF stopAtDoor THEN <<"door">> ELSE <<"door">>)
     ELSE <<n>> \o Walk(nx[n], nx, stopAtDoor, fuel - 1)
 
-(* p: logged projection (unprimed context); the specification side is the NEXT state *)
+(* p: logged projection (unprimed context); the specification side is the NEXT state.  A replayer built without the probes
+   of private members (a representation change of the mutex) does not log req / chain / queue: what is logged must match *)
 ObsMatchesNext(p) ==
-    /\ p.req = req'
-    /\ p.chain = Walk(req', nxt', TRUE, 12)
-    /\ p.queue = Walk(queue', nxt', FALSE, 12)
+    /\ "req" \in DOMAIN p => p.req = req'
+    /\ "chain" \in DOMAIN p => p.chain = Walk(req', nxt', TRUE, 12)
+    /\ "queue" \in DOMAIN p => p.queue = Walk(queue', nxt', FALSE, 12)
     /\ \A q \in Parties : p.acts[q] = acts'[q] /\ p.done[q] = done'[q] /\ p.tryres[q] = tryres'[q]
     /\ \A t \in Threads : p.pend[t] = PendOf(pc'[t])
     /\ \A q \in PFor : p.slot[q] = slot'[q]
